@@ -852,6 +852,7 @@ func (db *DB) writeRequests(reqs []*request) error {
 		}
 	}
 	db.opt.Debugf("writeRequests called. Writing to value log")
+	y.VerifPoint("write.vlog")
 	err := db.vlog.write(reqs)
 	if err != nil {
 		done(err)
@@ -881,6 +882,7 @@ func (db *DB) writeRequests(reqs []*request) error {
 			done(err)
 			return y.Wrap(err, "writeRequests")
 		}
+		y.VerifPoint("write.lsm")
 		if err := db.writeToLSM(b); err != nil {
 			done(err)
 			return y.Wrap(err, "writeRequests")
@@ -888,9 +890,11 @@ func (db *DB) writeRequests(reqs []*request) error {
 	}
 
 	db.opt.Debugf("Sending updates to subscribers")
+	y.VerifPoint("write.pub")
 	db.pub.sendUpdates(reqs)
 
 	done(nil)
+	y.VerifPoint("write.done")
 	db.opt.Debugf("%d entries written", count)
 	return nil
 }
@@ -915,6 +919,7 @@ func (db *DB) sendToWriteCh(entries []*Entry) (*request, error) {
 	req.reset()
 	req.Entries = entries
 	req.Wg.Add(1)
+	y.VerifPoint("send.enqueue")
 	req.IncrRef()     // for db write
 	db.writeCh <- req // Handled in doWrites.
 	y.NumPutsAdd(db.opt.MetricsEnabled, int64(len(entries)))
@@ -1038,6 +1043,7 @@ func (db *DB) ensureRoomForWrite() error {
 			db.mt.sl.MemSize(), len(db.flushChan))
 		// We manage to push this task. Let's modify imm.
 		db.imm = append(db.imm, db.mt)
+		y.VerifPoint("mt.rotate")
 		db.mt, err = db.newMemTable()
 		if err != nil {
 			return y.Wrapf(err, "cannot create new mem table")
@@ -1089,6 +1095,7 @@ func (db *DB) handleMemTableFlush(mt *memTable, dropPrefixes [][]byte) error {
 		return nil
 	}
 
+	y.VerifPoint("flush.build")
 	fileID := db.lc.reserveFileID()
 	var tbl *table.Table
 	var err error
@@ -1102,8 +1109,10 @@ func (db *DB) handleMemTableFlush(mt *memTable, dropPrefixes [][]byte) error {
 		return y.Wrap(err, "error while creating table")
 	}
 	// We own a ref on tbl.
+	y.VerifPoint("flush.add")
 	err = db.lc.addLevel0Table(tbl) // This will incrRef
 	_ = tbl.DecrRef()               // Releases our ref.
+	y.VerifPoint("flush.added")
 	return err
 }
 
@@ -1125,6 +1134,7 @@ func (db *DB) flushMemtable(lc *z.Closer) {
 				continue
 			}
 
+			y.VerifPoint("flush.pop")
 			// Update s.imm. Need a lock.
 			db.lock.Lock()
 			// This is a single-threaded operation. mt corresponds to the head of
@@ -1354,6 +1364,7 @@ func (seq *Sequence) updateLease() error {
 			return err
 		}
 		seq.leased = lease
+		y.VerifPoint("seq.leased")
 		return nil
 	})
 }
@@ -1676,6 +1687,7 @@ func (db *DB) prepareToDrop() (func(), error) {
 	// In order prepare for drop, we need to block the incoming writes and
 	// write it to db. Then, flush all the pending memtable. So that, we
 	// don't miss any entries.
+	y.VerifPoint("drop.block")
 	if err := db.blockWrite(); err != nil {
 		return func() {}, err
 	}
@@ -1726,6 +1738,7 @@ func (db *DB) dropAll() (func(), error) {
 	// prepareToDrop will stop all the incoming write and flushes any pending memtables.
 	// Before we drop, we'll stop the compaction because anyways all the data are going to
 	// be deleted.
+	y.VerifPoint("dropall.stopcompact")
 	db.stopCompactions()
 	resume := func() {
 		db.startCompactions()
@@ -1746,12 +1759,14 @@ func (db *DB) dropAll() (func(), error) {
 		return resume, y.Wrapf(err, "cannot open new memtable")
 	}
 
+	y.VerifPoint("dropall.tree")
 	num, err := db.lc.dropTree()
 	if err != nil {
 		return resume, err
 	}
 	db.opt.Infof("Deleted %d SSTables. Now deleting value logs...\n", num)
 
+	y.VerifPoint("dropall.vlog")
 	num, err = db.vlog.dropAll()
 	if err != nil {
 		return resume, err
@@ -1821,6 +1836,7 @@ func (db *DB) DropPrefix(prefixes ...[]byte) error {
 	}
 
 	// Drop prefixes from the levels.
+	y.VerifPoint("dropprefix.levels")
 	if err := db.lc.dropPrefixes(filtered); err != nil {
 		return err
 	}
